@@ -68,6 +68,9 @@ def digest(record, phase_index=-1):
     pending_pre = {}
     for entry in d.execs:
         if entry["is_prenode"]:
+            if entry["w"] in pending_pre:
+                # the previous configuration attempt of this worker was not followed by the install step: it failed
+                d.units.append(_failed_creation(pending_pre.pop(entry["w"]), d))
             pending_pre[entry["w"]] = entry
             continue
         unit = dict(entry)
@@ -82,6 +85,15 @@ def digest(record, phase_index=-1):
     for pre in pending_pre.values():
         d.units.append(_failed_creation(pre, d))
     d.units.sort(key=lambda u: (u["t0"], u["id"]))
+    # precondition of the concurrency/budget clauses: no execution (a two-step creation counting as one) outlasts the
+    # timeout budget after which the code deliberately lets a waiting worker re-enter
+    d.overrun_classes = set()
+    for unit in d.units:
+        if unit["t1"] is None:
+            continue
+        budget = numeric(unit.get("test_timeout"), 3600) * max(1, numeric(unit.get("max_tries"), 1))
+        if unit["t1"] - unit["t0"] > numeric(unit.get("test_timeout"), 3600):
+            d.overrun_classes.add(unit["cls"])
     d.producers = collections.defaultdict(set)       # (obj, state) -> classes that set it
     d.node_by_name = {}
     for node in d.nodes:
@@ -259,6 +271,9 @@ def oracle_c03(d, case):
         if len({u["w"] for u in units}) > 1:
             counters["groups_with_several_workers"] += 1
         budget = max(budget_of(u, replay) for u in units)
+        if cls in d.overrun_classes:
+            counters["groups_skipped_for_overrun"] += 1
+            continue
         if len(units) > budget:
             findings.append((f"test executed more often than its retry budget in one {scope[0]} scope",
                              f"{cls} scope {scope}: {len(units)} executions {[(u['w'], u['t0'], u['status']) for u in units]} budget {budget}"))
@@ -296,7 +311,7 @@ def oracle_c03(d, case):
 
 def oracle_c04(d, case):
     findings, counters = [], collections.Counter()
-    overrun = any(e["t1"] is not None and e["t1"] - e["t0"] > numeric(e.get("test_timeout"), 3600) for e in d.execs)
+    overrun = bool(d.overrun_classes)
     replay = bool(case.get("params", {}).get("replay"))
     groups = collections.defaultdict(list)
     for unit in d.units:
@@ -368,15 +383,28 @@ def oracle_c05(d, case):
             key = (event["obj"], event["state"])
             if key in removable and True not in removable[key]:
                 findings.append(("a state not marked for removal was removed", f"{key} at {event['loc']} t={event['t']}"))
-            # dependants in flight or starting later
-            pending = [e for e in d.execs if any((r["obj"], r["state"]) == key for r in e["req"])
-                       and ((e["s0"] < event["seq"] and (e["s1"] is None or e["s1"] > event["seq"])) or e["s0"] > event["seq"])]
-            if pending:
-                running = [e for e in pending if e["s0"] < event["seq"]]
-                mechanism = "state removed while a dependant was running" if running else \
-                    "state removed while a dependant was still pending"
+            # dependants that use THIS copy: tests of the worker owning the location, or tests that are told to fetch from
+            # it (the location is among their sources and its scope is enabled), running now or starting later
+            owner = event["loc"].split(":", 1)[0]
+            relevant = []
+            for e in d.execs:
+                for r in e["req"]:
+                    if (r["obj"], r["state"]) != key:
+                        continue
+                    uses_copy = e["w"] == owner or (event["loc"] in r["locs"] and location_scope_of(event["loc"], e["w"], d) in r["pool_scope"])
+                    running = e["s0"] < event["seq"] and (e["s1"] is None or e["s1"] > event["seq"])
+                    pending = e["s0"] > event["seq"]
+                    if uses_copy and (running or pending):
+                        relevant.append((e, "running" if running else "pending"))
+            if relevant:
+                e, when = relevant[0]
+                same_worker = e["w"] == owner
+                same_swarm = d.workers[e["w"]]["swarm"] == d.workers.get(owner, {}).get("swarm")
+                relation = "on the same worker" if same_worker else ("of the same swarm" if same_swarm else "of another swarm")
+                parsing = "up-front parsing" if case.get("eager") else "lazy parsing"
+                mechanism = f"state removed while a dependant {relation} was {when} ({parsing})"
                 findings.append((mechanism, f"{key} removed at {event['loc']} t={event['t']} by {event.get('w')}; dependants "
-                                 f"{[(e['w'], e['cls'], e['t0'], e['t1']) for e in pending]}"))
+                                 f"{[(x['w'], x['cls'], x['t0'], x['t1'], w) for x, w in relevant]}"))
             else:
                 counters["removals_after_all_dependants"] += 1
         if event["k"] == "store" and event.get("by") in ("door", "transport") and event["op"] == "add":
@@ -422,6 +450,11 @@ def vm_parts(name):
         if chunk:
             parts[chunk.split(".")[0]] = chunk
     return parts
+
+
+def location_scope_of(location, worker_id, d):
+    from vlib.travsim import location_scope
+    return location_scope(location, d.workers[worker_id], d.workers)
 
 
 def oracle_c08(d, case):
@@ -503,6 +536,18 @@ def oracle_c10(d, case):
     else:
         rerun = [s for s in str(params.get("rerun_status", "")).replace(",", " ").split()] or list(ALL_STATUSES)
     stop = [s for s in str(params.get("stop_status", "")).replace(",", " ").split()]
+    if case.get("expect_error"):
+        counters["invalid_settings_cases"] += 1
+        rejected = [e for e in d.outcome["worker_errors"].values() if e["type"] in case["expect_error"]]
+        if rejected:
+            counters["invalid_settings_rejected"] += 1
+        elif not d.execs:
+            counters["invalid_settings_never_consulted"] += 1
+        else:
+            findings.append(("invalid retry settings were not rejected with an error",
+                             f"{ {k: v for k, v in params.items() if k in ('max_tries', 'rerun_status', 'stop_status')} }: "
+                             f"{len(d.execs)} executions, errors {d.outcome['worker_errors']}"))
+        return findings, counters
     uids = collections.Counter((e["uid"], e["name"]) for e in d.execs)
     for (uid, name), number in uids.items():
         counters["uids_checked"] += 1
@@ -515,7 +560,7 @@ def oracle_c10(d, case):
         scope = unit["scope"] if stateful else ("run",)
         history = []
         for other in d.units:
-            if other["id"] == unit["id"] or other["cls"] != unit["cls"] or other.get("creation_only_pre"):
+            if other["id"] == unit["id"] or other["cls"] != unit["cls"]:
                 continue
             other_scope = other["scope"] if stateful else ("run",)
             if other_scope != scope:
@@ -531,7 +576,11 @@ def oracle_c10(d, case):
         counters["decisions_evaluated"] += 1
         if history:
             counters["decisions_with_history"] += 1
-            allowed = len(history) < max_tries and set(history) <= set(rerun) and not (set(history) & set(stop))
+            if unit["cls"] in d.overrun_classes:
+                counters["decisions_skipped_for_overrun"] += 1
+                continue
+            completed = [h for h in history if h != "unknown"]
+            allowed = len(history) < max_tries and set(completed) <= set(rerun) and not (set(completed) & set(stop))
             if not allowed:
                 # a setup test whose state was missing at first examination runs whatever the previous results say
                 if stateful and not [h for h in history if h != "unknown"] == history and False:
@@ -548,9 +597,7 @@ def oracle_c10(d, case):
     if not d.outcome["exception"] and not d.outcome["worker_errors"]:
         groups = collections.defaultdict(list)
         for unit in d.units:
-            if unit.get("creation_only_pre"):
-                continue
-            stateful = bool(unit.get("sets"))
+            stateful = bool(unit.get("sets")) or unit.get("creation_only_pre")
             groups[(unit["cls"], unit["scope"] if stateful else ("run",))].append(unit)
         for (cls, scope), units in groups.items():
             statuses = [u["status"].lower() for u in units if u["status"]]
@@ -563,22 +610,22 @@ def oracle_c10(d, case):
     # each execution reads its own result
     by_name = collections.defaultdict(list)
     for entry in d.execs:
-        if entry["status"] and entry["reported"]:
+        # the configuration step of a creation runs on a throw-away node that is not part of the graph
+        if entry["status"] and entry["reported"] and not entry["is_prenode"]:
             by_name[entry["name"]].append(entry["status"])
+    recorded_by_name = collections.defaultdict(list)
     for node in d.nodes:
-        if node["flat"]:
+        if node["flat"] or node["clone_source"]:
             continue
-        own = by_name.get(node["name"], [])
-        recorded = [s for s, n in zip(node["results"], node.get("result_names", [])) if n == node["name"]]
-        n_previous = len([r for r in previous if r.get("name") == node["name"]])
-        recorded_now = recorded[n_previous:] if n_previous <= len(recorded) else recorded
-        if own and not node["object_root"] is None and False:
-            pass
-        if own:
-            counters["result_sequences_compared"] += 1
-            if [s for s in recorded_now if s != "UNKNOWN"] != own and sorted(s for s in recorded_now if s != "UNKNOWN") != sorted(own):
-                findings.append(("a repeated execution did not read its own result",
-                                 f"{node['cls']} on {node['worker']}: reported {own} recorded {recorded_now}"))
+        recorded_by_name[node["name"]] += [s for s, n in zip(node["results"], node.get("result_names", [])) if n == node["name"]]
+    for name, own in by_name.items():
+        recorded = recorded_by_name.get(name, [])
+        n_previous = len([r for r in previous if r.get("name") == name])
+        recorded_now = [s for s in recorded[n_previous:] if s != "UNKNOWN"]
+        counters["result_sequences_compared"] += 1
+        if sorted(recorded_now) != sorted(own):
+            findings.append(("a repeated execution did not read its own result",
+                             f"{name[-90:]}: reported {own} recorded {recorded_now}"))
     # verdict
     job = d.phase["job_results"]
     names = {r["name"] for r in job}
